@@ -558,7 +558,11 @@ def finish(rep: Report, level_if_clean="proof"):
     for o in real:
         by_kind[o.kind] = by_kind.get(o.kind, 0) + 1
 
-    clean = not refuted and not undecided and not errors and n_ob > 0
+    # the level describes the deductive part: refuted *bounded* stand-ins that are listed known
+    # findings are reported (KNOWN-FINDING lines, explanation below) but do not change what was proved
+    real_refuted = [o for o in refuted if not o.bounded]
+    unknown_refuted = [o for o in refuted if not any(o is ko for _, ko in known_hit)]
+    clean = not real_refuted and not unknown_refuted and not undecided and not errors and n_ob > 0
     level = level_if_clean if clean and discharged == n_ob else "other"
     explanation = (
         f"{discharged}/{n_ob} obligations discharged; refuted={len(refuted)} (known findings: {len(known_hit)}), "
